@@ -207,6 +207,10 @@ class ThreadWorker(base.Worker):
             acceptor = partial(self.accept, server)
             self.poller.register(sock, selectors.EVENT_READ, acceptor)
 
+        # never block longer than the heartbeat period given by the arbiter
+        # (timeout / 2), or a short timeout gets an idle worker killed
+        wait = min(1.0, self.timeout) if self.timeout else 1.0
+
         while self.alive:
             # notify the arbiter we are alive
             self.notify()
@@ -214,7 +218,7 @@ class ThreadWorker(base.Worker):
             # can we accept more connections?
             if self.nr_conns < self.worker_connections:
                 # wait for an event
-                events = self.poller.select(1.0)
+                events = self.poller.select(wait)
                 for key, _ in events:
                     callback = key.data
                     callback(key.fileobj)
@@ -224,7 +228,7 @@ class ThreadWorker(base.Worker):
                                       return_when=futures.FIRST_COMPLETED)
             else:
                 # wait for a request to finish
-                result = futures.wait(self.futures, timeout=1.0,
+                result = futures.wait(self.futures, timeout=wait,
                                       return_when=futures.FIRST_COMPLETED)
 
             # clean up finished requests
